@@ -42,6 +42,10 @@ type SessionOpts struct {
 	// would), so that the session runs over the library's own connection
 	// wrapper on top of a net.Conn
 	Layered bool
+	// LayeredFinal: the single step of the ready-made negotiator both completes
+	// the session and hands the library a plain io.ReadWriter around the
+	// connection (a custom negotiator that wraps the connection and is done).
+	LayeredFinal bool
 }
 
 // Header returns the stream header the harness feeds as the peer for opts.
@@ -210,6 +214,9 @@ func ReadySession(rw io.ReadWriter, o SessionOpts) (*xmpp.Session, error) {
 		out.XMLNS = o.NS()
 		in.Version = stream.DefaultVersion
 		out.Version = stream.DefaultVersion
+		if c, ok := rw.(*Conn); ok && o.LayeredFinal {
+			return o.State | xmpp.Ready, RW{C: c}, nil, nil
+		}
 		return o.State | xmpp.Ready, nil, nil, nil
 	}
 	created := o.Local
